@@ -13,9 +13,10 @@ THEOREMS = core.theorems_in(['C03.lean'], 'Flowdyn.C03') + ['Flowdyn.C16.%s_comp
            ['Flowdyn.C11.grad_const', 'Flowdyn.C11.recL_const', 'Flowdyn.C11.recR_const', 'Flowdyn.C11.limzero_all']
 AUDIT_IMPORTS = ['Flowdyn.Props.C16', 'Flowdyn.Props.C11', 'Flowdyn.Props.C07b']
 THEOREMS = THEOREMS + ['Flowdyn.C07.loop_preserves', 'Flowdyn.C07.run_preserves', 'Flowdyn.C07.run_preserves_data']
-AUDIT_IMPORTS = AUDIT_IMPORTS + ['Flowdyn.Props.C03b', 'Flowdyn.Props.C06']
+AUDIT_IMPORTS = AUDIT_IMPORTS + ['Flowdyn.Props.C03b', 'Flowdyn.Props.C06', 'Flowdyn.Props.C06b']
+THEOREMS = THEOREMS + ['Flowdyn.C06.%s' % t for t in ('thetaStep_fixed_local', 'gearStep_fixed', 'solve_implicit_fixed', 'solve_gear_fixed', 'solve_implicit_fixed_snaps', 'solve_gear_fixed_snaps')]
 THEOREMS = THEOREMS + core.theorems_in(['C03b.lean'], 'Flowdyn.C03') + ['Flowdyn.C06.thetaStep_fixed']
-PARTIAL = {"implicit": "a theta-step fixes zeros of the operator (C06.thetaStep_fixed); gear with memory and the lift of the implicit family to whole solves are covered by the sweep (theorems pending)",
+PARTIAL = {"implicit": "theta-steps and gear fix zeros of the operator for global and local time steps, and so do whole solves and every stored snapshot (C06b.solve_implicit_fixed, solve_gear_fixed, *_snaps), under the solver hypothesis of C06 (the linear solver returns the solution of the system formed, which is injective)",
            "2D": "the 2D operator vanishes on uniform states for any scheme/flux when each side pair is periodic or its kernels fix the state (C03b.rhs2d_const_zero), with the Euler 2D kernels: sym, outsub, outsup, insub, insup (normal or angle), dirichlet (C03b.*_fixes, insub2d_compatible, insup2d_compatible)"}
 LEVEL_NOTE = "zero residual of a uniform state proved for any mesh/reconstruction/pointwise flux and boundary kernels fixing the state (C16 compatibility theorems); explicit integrators fix zeros of the operator"
 
